@@ -222,3 +222,52 @@ def check_tagged_ids(res: Result, lcs: List[LaunchCtx]) -> int:
         )
   return n
 
+
+
+# ------------------------------------------------------------------------------------------------ R-SPARSE.1
+# Data arrays whose sparsity structure is a MODEL constant (compiled by MuJoCo, columns sorted by dof): value array -> colind
+MODEL_STRUCTURED_SPARSE = {"Data.ten_J": "Model.ten_J_colind"}
+
+
+def check_model_structured_sparse(res: Result, lcs: List[LaunchCtx]) -> int:
+  """R-SPARSE.1: the non-zero positions of `ten_J` are fixed by the model (`ten_J_rowadr/rownnz/colind`, columns in the
+  compiler's order, not in the order the tendon's wrap objects are listed). A kernel that stores into position p of the
+  value array must have identified p as the slot of the column it means: the store is dominated by the test
+  `ten_J_colind[p] == <dof>` on the very same position term p. Writing "the k-th coefficient into the k-th slot" is right
+  only for tendons whose joints happen to be listed in dof order."""
+  from ..terms import pc_literals, subterms
+
+  n = 0
+  seen = set()
+  for lc in lcs:
+    for a in lc.keval.accesses:
+      if not a.is_write or not a.idx:
+        continue
+      key = array_key(lc, a.root)
+      col = MODEL_STRUCTURED_SPARSE.get(key)
+      if col is None:
+        continue
+      p = a.idx[-1]
+      sig = (lc.name, key, p)
+      if sig in seen:
+        continue
+      seen.add(sig)
+      n += 1
+      ok = False
+      for t, pol in pc_literals(a.pc):
+        if pol and isinstance(t, T) and t.op == "cmp" and t.args[0] == "==":
+          for side in (t.args[1], t.args[2]):
+            if isinstance(side, T) and side.op == "ld" and array_key(lc, side.args[0]) == col and side.args[-1] is p:
+              ok = True
+      res.ob(
+        ok,
+        f"{lc.name}|{key}|slot|{show(p)[:50]}",
+        Finding(
+          "R-SPARSE.1",
+          f"{lc.name}|{key}|slot-not-matched-against-colind",
+          f"`{a.root}[..., {show(p)[:80]}]` is stored without the test `{col.split('.')[-1]}[same position] == <dof>` on its path: the slot of a model-structured sparse row is chosen by position, not by the column it holds (columns are in the compiler's dof order, not in the order the contributions are produced)",
+          a.loc,
+        ),
+        sample={"kernel": lc.name, "array": key, "position": show(p)[:60]},
+      )
+  return n
